@@ -257,7 +257,7 @@ def run(sc, seed):
 
     th = threading.Thread(target=body, name='user', daemon=True)
     th.start()
-    th.join(timeout=sc.get('timeout', 20))
+    th.join(timeout=sc.get('timeout', 60))
     hung = th.is_alive()
     if hung:
         emit('Deadlock', info='legacy call did not return')
